@@ -33,14 +33,21 @@ def gen_cfg(rng, real=False):
             cfg["batch"] = rng.choice([["h2o"], ["h2o", "hf"]])
             cfg["steps"] = rng.randint(4, 10)
     else:
-        eng = rng.choice(["basic", "basic", "langevin", "xl", "ksa", "xl_damp"])
+        eng = rng.choice(["basic", "basic", "langevin", "xl", "ksa", "xl_damp", "sh_model", "sh_model"])
         cfg = {"engine": eng, "driver": "stub", "batch": rng.choice(STUB_BATCHES), "steps": rng.randint(1, 40)}
         cfg["stub"] = {"pot": rng.choice(["harm", "morse"]), "gamma": 0.3}
         if rng.random() < 0.25:
             cfg["extra_pad"] = 1
+        if eng == "sh_model":
+            cfg["batch"] = rng.choice([["h2o"], ["h2o", "h2o"], ["nh3", "h2o"]])
+            cfg["n_states"] = rng.randint(2, 4)
+            cfg["model_seed"] = rng.randrange(1 << 20)
+            cfg["substeps"] = rng.choice([None, 8])
+            cfg["initial_state"] = [rng.randint(1, cfg["n_states"]) for _ in cfg["batch"]]
+            cfg.pop("extra_pad", None)
     S = cfg["steps"]
-    cfg["dt"] = 0.2 if eng == "sh" else rng.choice([0.25, 0.5])
-    cfg["temp"] = 300.0
+    cfg["dt"] = 0.2 if eng in ("sh", "sh_model") else rng.choice([0.25, 0.5])
+    cfg["temp"] = 300.0 if eng != "sh_model" else 5000.0
     cfg["seed"] = rng.randrange(1 << 20)
     if eng in ("langevin", "xl_damp"):
         cfg["damp"] = 20.0
@@ -48,8 +55,8 @@ def gen_cfg(rng, real=False):
         cfg["k"] = rng.randint(3, 9)
     pick = lambda: rng.choice(CADS + [S + 3, S]) if S > 0 else 1
     h5 = {"data": pick(), "coordinates": pick(), "velocities": pick(), "forces": pick()}
-    if eng == "sh":
-        h5["nonadiabatic"] = rng.choice([0, 1, 2, 3])
+    if eng in ("sh", "sh_model"):
+        h5["nonadiabatic"] = rng.choice([0, 1, 2, 3, 5, S + 3])
     nmol = len(cfg["batch"])
     u = rng.random()
     if u < 0.05:
@@ -155,7 +162,7 @@ def _execute(record, root):
     for m in range(nmol):
         sel = m in cfg["out"]["molid"]
         any_h5 = any(int(v) > 0 for k, v in h5c.items() if k in ("data", "coordinates", "velocities", "forces")) or (
-            cfg["engine"] == "sh" and int(h5c.get("nonadiabatic", 0)) > 0
+            cfg["engine"] in ("sh", "sh_model") and int(h5c.get("nonadiabatic", 0)) > 0
         )
         h5_exists = os.path.exists(os.path.join(sparse, f"t.{m}.h5"))
         xyz_exists = os.path.exists(os.path.join(sparse, f"t.{m}.xyz"))
@@ -175,7 +182,7 @@ def _execute(record, root):
             ["data/nonadiabatic/active_surface", "data/nonadiabatic/electronic_amplitudes", "data/nonadiabatic/NACT"],
         ),
     }
-    if cfg["engine"] in ("sh", "exc_basic", "exc_xl"):
+    if cfg["engine"] in ("sh", "sh_model", "exc_basic", "exc_xl"):
         groups["data"][1].append("data/excitation/state_energies")
     for m in cfg["out"]["molid"]:
         for stream, (skey, vkeys) in groups.items():
